@@ -5,7 +5,7 @@
    ct_* (Gen/C01_ClassTree.v) is the TimedObject class tree reflected from partitura.score on every run. *)
 From PV Require Import Lib.Base Gen.C01_ClassTree Model.C01 Model.C01_Tree Model.C01_Spec
   Proofs.C01_tree Proofs.C01_inv Proofs.C01_main Proofs.C01_query.
-From Coq Require Import Sorting.Sorted.
+From Coq Require Import Sorting.Sorted Sorting.Permutation.
 
 (* ------------------------------------------------------------------ O1: the invariant, every reachable state *)
 Theorem inv_init : forall q0, Inv (init q0).
@@ -166,8 +166,9 @@ Theorem subclasses_closed : forall c, valid_cls c ->
 Proof. exact subclasses_closed_lemma. Qed.
 Print Assumptions subclasses_closed.
 
-(* the model's iter_subclasses returns what partitura's iter_subclasses returned, for every class *)
-Theorem itersub_matches_impl : forall c, valid_cls c -> zlookup c ct_itersub = Some (iter_subclasses c).
+(* the model's iter_subclasses enumerates the classes partitura's iter_subclasses returned, each once (the order
+   of the enumeration is not observable through the property), for every class *)
+Theorem itersub_matches_impl : forall c, valid_cls c -> Permutation (impl_itersub c) (iter_subclasses c).
 Proof. exact itersub_matches_impl_lemma. Qed.
 Print Assumptions itersub_matches_impl.
 
